@@ -2,7 +2,13 @@
 
 package engine
 
-import "github.com/els0r/goProbe/v4/pkg/types"
+import (
+	"context"
+
+	"github.com/els0r/goProbe/v4/pkg/types"
+	"github.com/els0r/goProbe/v4/pkg/types/hashmap"
+	"github.com/els0r/goProbe/v4/pkg/types/workload"
+)
 
 // VerifSetNumProcessingUnits pins the number of query worker goroutines
 // (normally runtime.NumCPU()) and returns the previous value.
@@ -20,4 +26,11 @@ func VerifParseIfaceList(lister types.InterfaceLister, ifaceList string) ([]stri
 // VerifParseIfaceRegex forwards to the regular-expression interface selection (C16).
 func VerifParseIfaceRegex(lister types.InterfaceLister, ifaceRegExp string) ([]string, error) {
 	return parseIfaceListWithRegex(lister, ifaceRegExp)
+}
+
+// VerifAggregate forwards to (*QueryRunner).aggregate with a caller-owned map channel and
+// unpacks the (unexported) result it delivers once the channel is closed (C11).
+func VerifAggregate(ctx context.Context, qr *QueryRunner, mapChan <-chan hashmap.AggFlowMapWithMetadata, ifaces []string, isLowMem bool) (hashmap.NamedAggFlowMapWithMetadata, *workload.Stats, error) {
+	res := <-qr.aggregate(ctx, mapChan, nil, ifaces, isLowMem)
+	return res.aggregatedMaps, res.stats, res.err
 }
